@@ -55,6 +55,10 @@ def _case(draw, tier):
     for _ in range(ncoll):
         ns = draw(st.integers(300, 520 if tier == "quick" else 900))
         files.append({"mults": datagen.draw_mults(draw, st, (ns, ns), 2)})
+    if ncoll == 2 and draw(st.booleans()):
+        # a small second run in which nothing is confidently identified (no feature separates targets from decoys there)
+        ns = draw(st.integers(60, 120))
+        files[1] = {"mults": datagen.draw_mults(draw, st, (ns, ns), 2), "sep": 0.0}
     return {
         "seed": draw(st.integers(0, 2**31 - 1)),
         "files": files,
@@ -258,6 +262,12 @@ def check(case):
             if all(np.allclose(s, df[f].values.astype(float), rtol=1e-12, atol=0) for s, df in zip(S, dfs)):
                 as_feature = f
                 break
+        if as_feature is None and len(S) > 1:
+            # the collections are modelled jointly and fall back jointly: "the returned scores are that feature's values"
+            part = [f for f in feats if any(np.allclose(s, df[f].values.astype(float), rtol=1e-12, atol=0) for s, df in zip(S, dfs))]
+            require(not part, "fallback-partial",
+                    f"some but not all of the {len(S)} jointly modelled collections were handed the values of feature {part[:1]}; "
+                    f"the others keep scores of a model that was judged worse (descs {list(descs)})")
         P = 0
         for s, d, tg in zip(S, descs, tg_all):
             n_acc, amb = _accepted(s, tg, thr, bool(d))
